@@ -1,6 +1,6 @@
 (* Proofs/DNSDecide.v — decodeName against the reference decoder for ALL byte strings: soundness with
    the pointer depth, hence more than 254 pointers always give an error. *)
-From PV Require Import Base.Prelude Base.Slice Model.DNS Spec.RFC1035 Proofs.RFC1035 Proofs.DNS.
+From PV Require Import Base.Prelude Base.Slice Model.DNS Spec.RFC1035 Proofs.RFC1035 Proofs.DNS Proofs.DNSSpec Proofs.DNSReject.
 Open Scope N_scope.
 
 Section Depth.
@@ -23,7 +23,7 @@ Proof.
   apply idx_inv in Hb as [Hi Hb]. pose proof (msg_byte data Hok index) as Hb256. rewrite <- Hb in Hb256.
   pose proof (msg_nth data Hwf index Hi) as Hn. rewrite <- Hb in Hn. fold msg in Hn.
   destruct (N.eqb_spec b 0) as [->|Hb0].
-  { inversion H; subst. exists 0%nat, []. split; [constructor; exact Hn|lia]. }
+  { destruct (Nat.ltb _ _); [discriminate|]. inversion H; subst. exists 0%nat, []. split; [constructor; exact Hn|lia]. }
   destruct (top_spec b Hb256) as (T1 & T2 & T3).
   destruct (N.land b 192 =? 192) eqn:E1.
   { symmetry in T1. apply N.leb_le in T1.
@@ -32,6 +32,7 @@ Proof.
     pose proof Hwf as Hwf'. unfold wf in Hwf'. rewrite be16_at_ok in Hw by lia. inversion Hw; subst w; clear Hw.
     destruct (Nat.ltb _ _); [discriminate|].
     apply bind_ok_inv in H as (r & Hr & H). destruct r as [[n nx] b']. cbn [snd] in H.
+    destruct (Nat.ltb 254 _); [discriminate|].
     inversion H; subst. apply Hrec in Hr as (d & labels & nx' & Hna & Hd).
     exists (S d), labels. split; [|lia].
     replace (S (S index)) with (index + 2)%nat by lia.
@@ -45,6 +46,7 @@ Proof.
   destruct (Nat.ltb_spec 255 (index2 - offset)); [discriminate|].
   destruct (Nat.ltb_spec (len data) index2) as [|Hi2]; [discriminate|].
   apply bind_ok_inv in H as (lab & Hlab & H).
+  destruct (existsb (fun c => c =? 46) (view lab)); [discriminate|].
   destruct (Nat.leb_spec (len data) index2); [discriminate|].
   apply IH in H as (d & labels & Hna & Hd).
   exists d, (sub msg (S index) (N.to_nat b) :: labels). split; [|exact Hd].
@@ -71,33 +73,42 @@ Qed.
 
 End Depth.
 
-(* decodeName against the reference decoder, for every slice, offset and buffer:
-   - the reference finds no name: error;
-   - it finds one: whatever decodeName returns is that name and its end offset; it IS returned when the
-     name is reached through at most 254 pointers and has at most 256 octets; more than 254 pointers
-     always give an error. *)
-Theorem name_decides data off buf : wf data -> bytes_ok (arr data) ->
-  match ref_decode (view data) off with
-  | None => exists e, decodeName name_fuel data off buf 1 = Err e
+(* The decidable acceptance predicate on the byte string: the reference decoder finds a name at [off],
+   the name has at most 255 octets (RFC 1035 2.3.4, counted across compression pointers), no label
+   contains a '.' (rendering rule), and it is reached through at most 254 pointers. *)
+Definition accepts (msg : bytes) (off : nat) : option (list bytes * nat) :=
+  match ref_decode msg off with
   | Some (ls, n) =>
-      let d := ref_depth (S (length (view data))) (view data) off in
-      (forall nm nx b, decodeName name_fuel data off buf 1 = Ok (nm, nx, b) -> nm = dotted ls /\ nx = n) /\
-      ((d <= 254)%nat -> (wire_len ls <= 256)%nat ->
-         exists b, decodeName name_fuel data off buf 1 = Ok (dotted ls, n, b)) /\
-      ((254 < d)%nat -> exists e, decodeName name_fuel data off buf 1 = Err e)
+      if name_ok NAME_LIMIT ls && Nat.leb (ref_depth (S (length msg)) msg off) 254 then Some (ls, n) else None
+  | None => None
+  end.
+
+(* decodeName is EXACTLY the reference decoder restricted by that predicate, for every slice (all
+   byte contents, lengths, capacities), offset and scratch buffer: the dotted name and end offset on
+   acceptance, an error otherwise (never a panic, never a hang, never another name). *)
+Theorem name_decides data off buf : wf data -> bytes_ok (arr data) ->
+  match accepts (view data) off with
+  | Some (ls, n) => exists b, decodeName name_fuel data off buf 1 = Ok (dotted ls, n, b)
+  | None => exists e, decodeName name_fuel data off buf 1 = Err e
   end.
 Proof.
-  intros Hwf Hok. pose proof (bytes_ok_view data Hok) as Hokv.
+  intros Hwf Hok. pose proof (bytes_ok_view data Hok) as Hokv. unfold accepts.
   destruct (ref_decode (view data) off) as [[ls n]|] eqn:R.
-  - pose proof (ref_decode_depth _ _ _ _ Hokv R) as Hd. cbv zeta.
+  - pose proof (ref_decode_depth _ _ _ _ Hokv R) as Hd.
     set (d := ref_depth (S (length (view data))) (view data) off) in *.
-    split; [|split].
-    + intros nm nx b H. destruct (name_sound _ _ _ _ _ _ Hwf Hok H) as (ls' & Hna & ->).
-      destruct (name_at_det _ _ _ _ _ _ Hna (name_at_d_name_at _ _ _ _ _ Hd)) as [-> ->]. auto.
-    + intros Hd254 Hw. exact (name_complete data d off ls n buf Hwf Hok Hd Hd254 Hw).
-    + intros Hdeep. destruct (name_total data off buf Hwf) as [Hp Hf].
+    destruct (name_ok NAME_LIMIT ls) eqn:Hnok; cbn [andb].
+    + destruct (Nat.leb_spec d 254) as [Hd254|Hdeep].
+      * apply name_ok_inv in Hnok as [Hw Hdf]. unfold NAME_LIMIT in Hw.
+        exact (name_complete data d off ls n buf Hwf Hok Hd Hd254 Hw Hdf).
+      * destruct (name_total data off buf Hwf) as [Hp Hf].
+        destruct (decodeName name_fuel data off buf 1) as [[[nm nx] b]|e| |] eqn:E; try contradiction; eauto.
+        exfalso. destruct (decodeName_sound_d data Hwf Hok _ _ _ _ _ _ _ E) as (d' & ls' & Hna' & Hd').
+        destruct (name_at_d_det _ _ _ _ _ Hd _ _ _ Hna') as (Ed & _). lia.
+    + destruct (name_total data off buf Hwf) as [Hp Hf].
       destruct (decodeName name_fuel data off buf 1) as [[[nm nx] b]|e| |] eqn:E; try contradiction; eauto.
-      exfalso. destruct (decodeName_sound_d data Hwf Hok _ _ _ _ _ _ _ E) as (d' & ls' & Hna' & Hd').
-      destruct (name_at_d_det _ _ _ _ _ Hd _ _ _ Hna') as (Ed & _). lia.
+      exfalso. apply name_sound_limits in E as (ls' & Hna & _ & Hdf & Hw); auto.
+      destruct (name_at_det _ _ _ _ _ _ Hna (name_at_d_name_at _ _ _ _ _ Hd)) as [-> _].
+      unfold name_ok, NAME_LIMIT in Hnok. rewrite (dotfree_presentable ls Hdf) in Hnok.
+      destruct (Nat.leb_spec (wire_len ls) 255); [discriminate|lia].
   - apply name_rejects; auto. apply ref_decode_none; auto.
 Qed.
